@@ -84,7 +84,7 @@ func startAuthz(w *world.World, b *world.Browser, o flowOpts) (*session, *world.
 	ap := world.AuthParams{Client: o.client, RedirectURI: o.redirect, ResponseType: o.responseType, ResponseMode: o.responseMode,
 		Scope: strings.Join(o.scopes, " "), State: o.state, Nonce: o.nonce, Extra: o.extra}
 	if o.pkce != "" && o.pkce != "none" {
-		s.verifier = "verifier-0123456789abcdefghijklmnopqrstuvwxyz-ABCDEFGHIJ-" + o.client
+		s.verifier = "verifier.0123456789_abcdefghijklmnopqrstuvwxyz~ABCDEFGHIJ-" + o.client // every kind of unreserved character (RFC 7636 4.1)
 		ap.ChallengeMethod = o.pkce
 		if o.pkce == "S256" {
 			ap.Challenge = world.S256(s.verifier)
